@@ -89,6 +89,11 @@ func traverseBottomUp(parent *parser.Expr, current *parser.Expr, transform func(
 	case *parser.VectorSelector:
 		return transform(parent, current)
 	case *parser.MatrixSelector:
+		// A selector which another optimizer has replaced (FilteredSelector) ends the
+		// traversal below a range as it does on its own: it has no PromQL text.
+		if _, ok := node.VectorSelector.(*parser.VectorSelector); !ok {
+			return true
+		}
 		return transform(parent, &node.VectorSelector)
 	case *parser.AggregateExpr:
 		if stop := traverseBottomUp(current, &node.Expr, transform); stop {
